@@ -696,7 +696,7 @@ func (r *rewriter) stmt(s ast.Stmt) ast.Stmt {
 	case *ast.AssignStmt:
 		if len(x.Lhs) == 2 && len(x.Rhs) == 1 {
 			if u, ok := unparen(x.Rhs[0]).(*ast.UnaryExpr); ok && u.Op == token.ARROW {
-				x.Rhs[0] = &ast.CallExpr{Fun: &ast.SelectorExpr{X: r.expr(u.X, mRd), Sel: ast.NewIdent("Recv2")}}
+				x.Rhs[0] = &ast.CallExpr{Fun: &ast.SelectorExpr{X: r.chanOf(u.X), Sel: ast.NewIdent("Recv2")}}
 				if x.Tok != token.DEFINE {
 					for i := range x.Lhs {
 						if id, ok := x.Lhs[i].(*ast.Ident); ok && id.Name == "_" {
@@ -798,7 +798,7 @@ func (r *rewriter) stmt(s ast.Stmt) ast.Stmt {
 		x.Stmt = r.stmt(x.Stmt)
 	case *ast.BranchStmt, *ast.EmptyStmt:
 	case *ast.SendStmt:
-		ch := r.expr(x.Chan, mRd)
+		ch := r.chanOf(x.Chan)
 		v := r.expr(x.Value, mRd)
 		return &ast.ExprStmt{X: &ast.CallExpr{Fun: &ast.SelectorExpr{X: ch, Sel: ast.NewIdent("Send")}, Args: []ast.Expr{v}}}
 	case *ast.SelectStmt:
@@ -825,7 +825,7 @@ func (r *rewriter) rangeStmt(x *ast.RangeStmt) ast.Stmt {
 			}
 		}
 		var pre []ast.Stmt
-		recv := &ast.CallExpr{Fun: &ast.SelectorExpr{X: r.expr(x.X, mRd), Sel: ast.NewIdent("Recv2")}}
+		recv := &ast.CallExpr{Fun: &ast.SelectorExpr{X: r.chanOf(x.X), Sel: ast.NewIdent("Recv2")}}
 		if x.Tok == token.ASSIGN && x.Key != nil {
 			pre = append(pre, &ast.DeclStmt{Decl: &ast.GenDecl{Tok: token.VAR, Specs: []ast.Spec{&ast.ValueSpec{Names: []*ast.Ident{okId}, Type: ast.NewIdent("bool")}}}})
 			tok = token.ASSIGN
@@ -895,6 +895,27 @@ func (r *rewriter) rangeStmt(x *ast.RangeStmt) ast.Stmt {
 	return out
 }
 
+// chanOf rewrites a channel-valued expression for use as the receiver of a simulated channel operation. A NAMED
+// channel type (`type pool chan T`, possibly with methods) is turned into `type pool struct{ C *simrt.Chan[T] }`
+// by pass C, so such an operand is unwrapped with `.C`.
+func (r *rewriter) chanOf(e ast.Expr) ast.Expr {
+	t := r.info().TypeOf(e)
+	out := r.expr(e, mRd)
+	if isNamedChan(t) {
+		return &ast.SelectorExpr{X: out, Sel: ast.NewIdent("C")}
+	}
+	return out
+}
+
+func isNamedChan(t types.Type) bool {
+	n, ok := t.(*types.Named)
+	if !ok {
+		return false
+	}
+	_, isChan := n.Underlying().(*types.Chan)
+	return isChan
+}
+
 // selectStmt rewrites
 //
 //	select { case v, ok := <-a: A; case b <- x: B; default: D }
@@ -922,7 +943,7 @@ func (r *rewriter) selectStmt(x *ast.SelectStmt) ast.Stmt {
 		var body []ast.Stmt
 		switch c := cc.Comm.(type) {
 		case *ast.SendStmt:
-			cases = append(cases, &ast.CallExpr{Fun: r.simrtSel("SendCase"), Args: []ast.Expr{r.expr(c.Chan, mRd), r.expr(c.Value, mRd)}})
+			cases = append(cases, &ast.CallExpr{Fun: r.simrtSel("SendCase"), Args: []ast.Expr{r.chanOf(c.Chan), r.expr(c.Value, mRd)}})
 		case *ast.ExprStmt, *ast.AssignStmt:
 			var recv *ast.UnaryExpr
 			var lhs []ast.Expr
@@ -941,7 +962,7 @@ func (r *rewriter) selectStmt(x *ast.SelectStmt) ast.Stmt {
 			r.tmp++
 			slot := fmt.Sprintf("simSlot%d", r.tmp)
 			pre = append(pre, &ast.AssignStmt{Lhs: []ast.Expr{ast.NewIdent(slot)}, Tok: token.DEFINE,
-				Rhs: []ast.Expr{&ast.CallExpr{Fun: r.simrtSel("NewSlot"), Args: []ast.Expr{r.expr(recv.X, mRd)}}}})
+				Rhs: []ast.Expr{&ast.CallExpr{Fun: r.simrtSel("NewSlot"), Args: []ast.Expr{r.chanOf(recv.X)}}}})
 			cases = append(cases, &ast.CallExpr{Fun: &ast.SelectorExpr{X: ast.NewIdent(slot), Sel: ast.NewIdent("Recv")}})
 			if len(lhs) > 0 {
 				rhs := []ast.Expr{&ast.SelectorExpr{X: ast.NewIdent(slot), Sel: ast.NewIdent("V")}}
@@ -1027,6 +1048,20 @@ func (r *rewriter) replaceChanTypes(n ast.Node) {
 			}
 		}
 	}
+	// named channel types first: type pool chan T  ->  type pool struct{ C *simrt.Chan[T] }
+	ast.Inspect(n, func(nd ast.Node) bool {
+		ts, ok := nd.(*ast.TypeSpec)
+		if !ok {
+			return true
+		}
+		if ct, ok := ts.Type.(*ast.ChanType); ok {
+			ts.Type = &ast.StructType{Fields: &ast.FieldList{List: []*ast.Field{{
+				Names: []*ast.Ident{ast.NewIdent("C")},
+				Type:  &ast.StarExpr{X: &ast.IndexExpr{X: r.simrtSel("Chan"), Index: ct.Value}},
+			}}}}
+		}
+		return true
+	})
 	visit(reflect.ValueOf(n))
 }
 
@@ -1355,11 +1390,26 @@ func (r *rewriter) expr(e ast.Expr, mode int) ast.Expr {
 			return x
 		}
 		if x.Op == token.ARROW {
-			return &ast.CallExpr{Fun: &ast.SelectorExpr{X: r.expr(x.X, mRd), Sel: ast.NewIdent("Recv")}}
+			return &ast.CallExpr{Fun: &ast.SelectorExpr{X: r.chanOf(x.X), Sel: ast.NewIdent("Recv")}}
 		}
 		x.X = r.expr(x.X, mRd)
 		return x
 	case *ast.BinaryExpr:
+		if x.Op == token.EQL || x.Op == token.NEQ {
+			// p == nil for a named channel type compares the wrapped channel
+			if isNamedChan(info.TypeOf(x.X)) {
+				if tv, ok := info.Types[x.Y]; ok && tv.IsNil() {
+					x.X = r.chanOf(x.X)
+					return x
+				}
+			}
+			if isNamedChan(info.TypeOf(x.Y)) {
+				if tv, ok := info.Types[x.X]; ok && tv.IsNil() {
+					x.Y = r.chanOf(x.Y)
+					return x
+				}
+			}
+		}
 		x.X = r.expr(x.X, mRd)
 		x.Y = r.expr(x.Y, mRd)
 		return x
@@ -1425,10 +1475,21 @@ func (r *rewriter) call(x *ast.CallExpr) ast.Expr {
 				if ct, ok := x.Args[0].(*ast.ChanType); ok {
 					return &ast.CallExpr{Fun: &ast.IndexExpr{X: r.simrtSel("MakeChan"), Index: ct.Value}, Args: x.Args[1:]}
 				}
-				if t := info.TypeOf(x.Args[0]); t != nil {
-					if _, isChan := t.Underlying().(*types.Chan); isChan {
-						r.unsupported(x, "make of a named channel type")
+				if t := info.TypeOf(x.Args[0]); t != nil && isNamedChan(t) {
+					// make(pool, n) -> pool{C: simrt.MakeChan[T](n)}
+					ch := t.(*types.Named).Underlying().(*types.Chan)
+					elem, err := parser.ParseExpr(types.TypeString(ch.Elem(), func(p *types.Package) string {
+						if p == r.p.pkg {
+							return ""
+						}
+						return p.Name()
+					}))
+					if err != nil {
+						r.unsupported(x, "make of a named channel type whose element type cannot be written out")
+						return x
 					}
+					mk := &ast.CallExpr{Fun: &ast.IndexExpr{X: r.simrtSel("MakeChan"), Index: elem}, Args: x.Args[1:]}
+					return &ast.CompositeLit{Type: x.Args[0], Elts: []ast.Expr{&ast.KeyValueExpr{Key: ast.NewIdent("C"), Value: mk}}}
 				}
 				return x
 			case "append":
@@ -1445,7 +1506,7 @@ func (r *rewriter) call(x *ast.CallExpr) ast.Expr {
 					if t := info.TypeOf(x.Args[0]); t != nil {
 						if _, isChan := t.Underlying().(*types.Chan); isChan {
 							m := map[string]string{"close": "Close", "len": "Len", "cap": "Cap"}[b.Name()]
-							return &ast.CallExpr{Fun: &ast.SelectorExpr{X: r.expr(x.Args[0], mRd), Sel: ast.NewIdent(m)}}
+							return &ast.CallExpr{Fun: &ast.SelectorExpr{X: r.chanOf(x.Args[0]), Sel: ast.NewIdent(m)}}
 						}
 					}
 				}
